@@ -65,6 +65,7 @@ pub fn generate(tier: Tier, rng: &mut Rng, sink: &mut dyn FnMut(RtCase)) {
     gen_pair(&mut g);
     gen_spair(&mut g);
     gen_mpair(&mut g);
+    gen_tokio(&mut g);
 }
 
 // ---------------------------------------------------------------------------------------------
@@ -1572,5 +1573,69 @@ fn gen_mpair(g: &mut Gen) {
             }
         }
         g.emit("mpair", &ops, Body::W(a, b, evs));
+    }
+}
+
+// ---------------------------------------------------------------------------------------------
+// tokio: calls and streams driven inside a real tokio current-thread runtime, where the cooperative
+// budget (128 operations per task poll) makes channel and lock operations return Pending although
+// they could proceed; graphs large enough to exhaust it several times. Monitors only (the model has
+// no budget): the implementation's traces and outcomes must satisfy the properties.
+// ---------------------------------------------------------------------------------------------
+
+fn gen_tokio(g: &mut Gen) {
+    // calls: k succeeding roots, one failing root F, a child C of F; F inserted first or last
+    let ks: Vec<usize> = match g.tier {
+        Tier::Quick => (60..=230).step_by(1).collect(),
+        Tier::Thorough => (1..=400).collect(),
+    };
+    for &k in &ks {
+        for failing_first in [false, true] {
+            let n = k + 2;
+            let f = if failing_first { 0 } else { k };
+            let c = k + 1;
+            let ops = plain_ops(n, &[(f, c)]);
+            let mut cfg = CallCfg::plain(Api::TryForEach);
+            cfg.mutable = k % 2 == 1;
+            cfg.ctl = k % 5 == 0;
+            cfg.imm = (0..n).map(|i| (i, i != f)).collect();
+            g.emit("tokio-call", &ops, Body::X(cfg, vec![ev(CallEvKind::Tokio)]));
+        }
+    }
+    // calls on wide / chain / fan graphs, all succeeding, all APIs
+    let shapes: Vec<(usize, Vec<(usize, usize)>)> = {
+        let mut v = Vec::new();
+        for n in [65usize, 129, 200, 300] {
+            v.push((n, Vec::new()));
+            v.push((n, (1..n).map(|i| (i - 1, i)).collect()));
+            v.push((n, (1..n).map(|i| (0, i)).collect()));
+            v.push((n, (0..n - 1).map(|i| (i, n - 1)).collect()));
+        }
+        v
+    };
+    for (n, edges) in &shapes {
+        let ops = plain_ops(*n, edges);
+        for api in Api::ALL {
+            for rev in [false, true] {
+                let mut cfg = CallCfg::plain(api);
+                cfg.rev = rev;
+                cfg.with = rev;
+                cfg.mutable = (*n + rev as usize) % 2 == 0;
+                cfg.lim = if api.has_limit() { [0usize, 3, 200][(*n / 7) % 3] } else { 0 };
+                cfg.imm = (0..*n).map(|i| (i, true)).collect();
+                g.emit("tokio-call", &ops, Body::X(cfg, vec![ev(CallEvKind::Tokio)]));
+            }
+        }
+        // streams: the consumer holds 0, 1 or 70 FnRefs
+        for rev in [false, true] {
+            for hold in [0usize, 1, 70] {
+                let cfg = StreamCfg {
+                    rev,
+                    int: hold == 1,
+                    strat: Strat::Non,
+                };
+                g.emit("tokio-stream", &ops, Body::S(cfg, vec![SEv::Tokio(hold)]));
+            }
+        }
     }
 }
